@@ -800,10 +800,16 @@ ensures:
     r is Ok, r->Ok_0.index == *index, r->Ok_0.hash@ == data@.skip(8), le_bytes(r->Ok_0.length, 8) == data@.subrange(0, 8)
 @*/
 
+/// the size field of a 40-byte tree record: the u64 whose little-endian bytes are the first 8 bytes
+pub open spec fn rec_size(data: Seq<u8>) -> u64 { choose|v: u64| le_bytes(v, 8) == data.subrange(0, 8) }
+pub proof fn lemma_rec_size(v: u64, data: Seq<u8>)
+    requires le_bytes(v, 8) == data.subrange(0, 8)
+    ensures rec_size(data) == v
+{ lemma_le_bytes_inj(rec_size(data), v, 8); }
 /// every 40-byte record read from the local tree store carries a size below 2^48
 pub open spec fn infos_small(infos: Option<&[StoreInfo]>) -> bool {
-    infos is Some ==> forall|i: int, v: u64| 0 <= i < infos->Some_0@.len() && !(#[trigger] infos->Some_0@[i]).miss && infos->Some_0@[i].data is Some
-        && #[trigger] le_bytes(v, 8) == infos->Some_0@[i].data->Some_0@.subrange(0, 8) ==> v <= 0xffff_ffff_ffff
+    infos is Some ==> forall|i: int| 0 <= i < infos->Some_0@.len() && (#[trigger] infos->Some_0@[i]).data is Some
+        ==> rec_size(infos->Some_0@[i].data->Some_0@) <= 0xffff_ffff_ffff
 }
 pub open spec fn map_small(nodes: IntMap<Option<Node>>) -> bool {
     forall|k: u64| #![trigger nodes@[k]] nodes@.contains_key(k) && nodes@[k] is Some ==> nodes@[k]->Some_0.length <= 0xffff_ffff_ffff
@@ -876,6 +882,8 @@ impl MerkleTree {
             *self == *old(self),
             forall|i: int| 0 <= i < infos@.len() ==> ((#[trigger] infos@[i]).miss || (infos@[i].data is Some && infos@[i].data->Some_0@.len() >= 8)),
             infos_small(Some(infos)) ==> map_small(nodes)
+    after `let node = node_from_bytes(&index, info.data.as_ref().unwrap())?;`:
+        proof { lemma_rec_size(node.length, info.data->Some_0@); }
     @*/
     /*@ fn src/tree/merkle_tree.rs MerkleTree::changeset
     tags: C04 C03 C01
